@@ -8,8 +8,9 @@
 (* document may be cut off (truncated) after any element.                  *)
 (* Valid(doc): every slot valid and not truncated -> the hub must store    *)
 (* exactly the denoted entities.  Otherwise -> the hub must answer with an *)
-(* error, must not panic, and must store nothing of the document (all      *)
-(* documents here are smaller than one flush batch).                       *)
+(* error, must not panic, and must store nothing assembled from the         *)
+(* malformed element or anything after it (the handler flushes every 10     *)
+(* entities: what precedes the malformed element may already be stored).    *)
 (* TLC enumerates the document box as initial states; the harness renders  *)
 (* each document to bytes (and its byte-level truncations), feeds it to    *)
 (* the real parser and to POST /datasets/{ds}/entities, and compares.      *)
@@ -70,6 +71,9 @@ Init ==
   \/ (ctx = Pick(CtxShapes, "ok") /\ ents \in { <<a, b>> : a \in ValidVariants, b \in ValidVariants } /\ cut = 0)
   \/ (ctx = Pick(CtxShapes, "ok") /\ ents \in { <<E0, e>> : e \in ValidVariants } /\ cut \in 1..3)
   \/ (ctx = Pick(CtxShapes, "ok") /\ ents = <<>> /\ cut \in 0..1)
+  \* documents longer than the handler's flush batch (10 entities): the variant sits after the first flush
+  \/ (ctx = Pick(CtxShapes, "ok") /\ cut = 0
+       /\ ents \in { [i \in 1..12 |-> IF i = k THEN e ELSE E0] : e \in Variants, k \in (IF Deep THEN {1, 10, 11, 12} ELSE {11, 12}) })
   \/ (Deep /\ ctx \in {Pick(CtxShapes, "ok"), Pick(CtxShapes, "ok_default_prefix")}
             /\ ents \in { <<e>> : e \in Variants2 } /\ cut = 0)
   \/ (Deep /\ ctx = Pick(CtxShapes, "ok") /\ ents \in { <<E0, e, E0>> : e \in Variants } /\ cut \in 0..4)
@@ -85,6 +89,10 @@ OneBadSlotInvalidates ==
 Shape(e) == [id |-> e.id.n, del |-> e.del.n, rec |-> e.rec.n, props |-> e.props.n, refs |-> e.refs.n, ord |-> e.ord.n]
 EmitDoc == PrintT(<<"DOC", ToJson([ctx |-> ctx.n, ents |-> [i \in 1..Len(ents) |-> Shape(ents[i])], cut |-> cut,
                                     valid |-> Valid,
+                                    \* position of the first malformed element (0: none): what precedes it may have
+                                    \* been stored by an earlier flush, nothing from it or after it may be
+                                    bad |-> IF \A i \in 1..Len(ents) : EntOk(ents[i]) THEN 0
+                                            ELSE CHOOSE i \in 1..Len(ents) : ~EntOk(ents[i]) /\ \A j \in 1..(i - 1) : EntOk(ents[j]),
                                     \* a transaction payload carries its context under the key "@context": the context
                                     \* object's own id is immaterial there
                                     txvalid |-> (cut = 0 /\ (ctx.ok \/ ctx.n = "id_not_context")
